@@ -266,6 +266,19 @@ impl<'a> Gen<'a> {
 
     /// exponent k = p/q in one of its compile-time spellings
     fn exponent_text(&mut self, k: Rat, r: &mut Rng) -> (String, bool) {
+        if r.chance(1, 8) {
+            // the exponent is itself a power: k^1, or (k²)^(1/2) written with ^ inside ^
+            self.features.composite_exponent = true;
+            let kt = if k.is_int() { format!("{}", k.n) } else { format!("{}/{}", k.n, k.d) };
+            return (
+                match r.below(3) {
+                    0 => format!("^(({kt})^1)"),
+                    1 if k.is_int() && k.n > 0 => format!("^({}^2 / {})", k.n, k.n),
+                    _ => format!("^(({kt})^(3 - 2))"),
+                },
+                false,
+            );
+        }
         if k.is_int() {
             let n = k.n;
             match r.below(4) {
